@@ -37,6 +37,7 @@ def run(ctx):
     ctx.call(GR.name_forms, "5n")
     ctx.call(GR.worker_symmetry, "6")
     ctx.call(GR.flat_expansion, "7")
+    ctx.call(GR.lazy_eager_details, "8")
 
 
 NODE = "cartgraph/node.py"
